@@ -10,7 +10,8 @@ edited), what is enumerated, against which oracle, within which bounds. The
 machinery has since been built; **section 10 records what was built and where
 it deviates from the plan, section 11 the defects found (repaired or recorded),
 section 12 the false alarms of the machinery that were corrected, section 13
-the seeded regressions and which check catches which.** Where a number in
+the seeded regressions and which check catches which, section 14 the trials
+with behaviour-preserving changes (no check may report those).** Where a number in
 sections 1-9 is marked "≈" it was an estimate; the evidence files carry the
 measured numbers.
 
@@ -23,7 +24,10 @@ if '10. As built: layout' not in s:
 11. Findings: repaired defects and open known findings
 12. False alarms of the machinery and how they were corrected
 13. Seeded regressions: which check catches which change
+14. Behaviour-preserving changes: does any check cry wolf?
 ''',1)
+if '14. Behaviour-preserving changes: does' not in s.split('## 1. What')[0]:
+    s=s.replace('13. Seeded regressions: which check catches which change\n','13. Seeded regressions: which check catches which change\n14. Behaviour-preserving changes: does any check cry wolf?\n',1)
 rows=[]
 for d in sorted(glob.glob('/verif/seeded/*/meta.json')):
     m=json.load(open(d))
@@ -32,6 +36,14 @@ kf=json.load(open('/verif/known_findings.json'))
 fixed='\n'.join('* `%s`' % f for f in kf['fixed'])
 openkf=('\n'.join('* **%s** (%s): %s' % (f['id'], f.get('property') or ', '.join(f.get('properties',[])), f['what']) for f in kf['open']) or 'None at present: every defect found so far has been repaired (`known_findings.json` has an empty `open` list; the mechanism stays in place).')
 body=open('/verif/doc/design_tail.md.tmpl').read()
+brows=[]
+for d in sorted(glob.glob('/verif/benign/*/meta.json')):
+    m=json.load(open(d))
+    al=', '.join(m.get('alarms',[])) or 'none'
+    if not m.get('behaviour_preserving', True):
+        al += ' (rightly: the change does not preserve the property, see above)'
+    brows.append('| %s | %s | %s |' % (m['id'], m['what'].split(' — ',1)[-1].split(' - ',1)[-1][:160], al))
+body=body.replace('@@BENIGN@@','\n'.join(brows))
 body=body.replace('@@FIXED@@',fixed).replace('@@OPEN@@',openkf).replace('@@MATRIX@@','\n'.join(rows))
 s=s+body
 open(p,'w').write(s)
